@@ -14,6 +14,22 @@ theorem afterElem_bracket {r : List Char} {k : Kind} {X : List Piece} (h : At r 
   obtain ⟨_, hpeek, _⟩ := h.punct
   simp [afterElem, hpeek]
 
+/-- If some element is still to be written, the next token of the multi-line element list is
+the `[` of its index marker. -/
+theorem elemsML_next_bracket (o : Opts) : ∀ (vs : TVals) (j : Nat), 1 ≤ vs.written →
+    ∃ a X, writeElemsML o j vs = a ++ .punct '[' :: X ∧ toks a = []
+  | .nil, j, h => by simp [TVals.written] at h
+  | .cons v vs, j, _ => by
+    rw [writeElemsML]
+    exact ⟨[.space ('\n' :: o.plusOne.current)],
+      .word (writeInt .u64 j o.base o.grouping) :: .punct ']' :: .punct ':' :: .space [' '] ::
+        (writeVal o.plusOne v ++ writeElemsML o (j + 1) vs), by simp [indexMarker], rfl⟩
+  | .skip vs, j, h => by
+    obtain ⟨a, X, hs, ha⟩ := elemsML_next_bracket o vs (j + 1) h
+    rw [writeElemsML, hs]
+    refine ⟨_ ++ a, X, (List.append_assoc _ _ _).symm, ?_⟩
+    by_cases hc : o.comments = true <;> simp [hc, toks, ha]
+
 mutual
 theorem neg_val : ∀ (v : TVal) (s : RShape) (o : Opts) (path r : List Char) (fuel : Nat) (k : Kind)
     (R : List Piece), o.Rereadable → o.multiline = true → v.WF → Matches s v → ¬ v.SmallArrays →
@@ -26,15 +42,15 @@ theorem neg_val : ∀ (v : TVal) (s : RShape) (o : Opts) (path r : List Char) (f
         simpa [Matches] using hm
       have hvs : vs.WF := hv
       obtain ⟨f, rfl, hf'⟩ := fuel_succ (n := needElems vs) (by simpa [needVal] using hf)
-      have hbad' : 2 ≤ vs.length ∨ ¬ vs.SmallArrays := by
-        by_cases h2 : 2 ≤ vs.length
+      have hbad' : 2 ≤ vs.written ∨ ¬ vs.SmallArrays := by
+        by_cases h2 : 2 ≤ vs.written
         · exact Or.inl h2
         · exact Or.inr (fun hs => hbad ⟨by omega, hs⟩)
       rw [writeVal] at h
       simp only [hml, if_true, List.cons_append, List.append_assoc, List.nil_append] at h
       obtain ⟨hread, _, h1⟩ := h.punct
       have h2 := At.skip _ (by split <;> first | rfl | exact toks_asciiLines _ _ _) h1
-      have := neg_elemsML vs elem o path _ f 0 count _ _ R ho hml hvs hall (by omega) hcnt hbad' hf' h2
+      have := neg_elemsML vs elem o path _ f 0 0 count _ _ R ho hml hvs hall (by omega) hcnt hbad' hf' h2
       simp only [readVal, hread]; exact this
     | scalar _ => exact absurd hm (by simp [Matches])
     | struct _ => exact absurd hm (by simp [Matches])
@@ -53,16 +69,32 @@ theorem neg_val : ∀ (v : TVal) (s : RShape) (o : Opts) (path r : List Char) (f
     | arr _ _ => exact absurd hm (by simp [Matches])
 
 theorem neg_elemsML : ∀ (vs : TVals) (elem : RShape) (o : Opts) (path r : List Char)
-    (fuel i count : Nat) (k : Kind) (sp : List Char) (R : List Piece), o.Rereadable →
+    (fuel i idx count : Nat) (k : Kind) (sp : List Char) (R : List Piece), o.Rereadable →
     o.multiline = true → vs.WF → MatchesAll elem vs → i + vs.length = count → count < 2 ^ 64 →
-    (2 ≤ vs.length ∨ ¬ vs.SmallArrays) →
+    (2 ≤ vs.written ∨ ¬ vs.SmallArrays) →
     needElems vs ≤ fuel → At r k (writeElemsML o i vs ++ (.space sp :: .punct '}' :: R)) →
-    readElems fuel count elem path i r = .fail
-  | .nil, elem, o, path, r, fuel, i, count, k, sp, R, ho, hml, hvs, hall, hcount, hc64, hbad, hf, h => by
+    readElems fuel count elem path idx r = .fail
+  | .nil, elem, o, path, r, fuel, i, idx, count, k, sp, R, ho, hml, hvs, hall, hcount, hc64, hbad, hf, h => by
     rcases hbad with hb | hb
-    · exact absurd hb (by simp [TVals.length])
+    · exact absurd hb (by simp [TVals.written])
     · exact absurd trivial hb
-  | .cons v vs, elem, o, path, r, fuel, i, count, k, sp, R, ho, hml, hvs, hall, hcount, hc64, hbad, hf, h => by
+  | .skip vs, elem, o, path, r, fuel, i, idx, count, k, sp, R, ho, hml, hvs, hall, hcount, hc64, hbad,
+      hf, h => by
+    have hvs' : vs.WF := hvs
+    have hall' : MatchesAll elem vs := hall
+    have hlen : i + (vs.length + 1) = count := hcount
+    have hbad' : 2 ≤ vs.written ∨ ¬ vs.SmallArrays := hbad
+    have hf' : needElems vs ≤ fuel := hf
+    rw [writeElemsML] at h
+    by_cases hc : o.comments = true
+    · simp only [hc, if_true, List.cons_append, List.nil_append] at h
+      exact neg_elemsML vs elem o path r fuel (i + 1) idx count _ sp R ho hml hvs' hall' (by omega)
+        hc64 hbad' hf' h.skip_space.skip_comment
+    · simp only [hc, if_false, List.nil_append] at h
+      exact neg_elemsML vs elem o path r fuel (i + 1) idx count _ sp R ho hml hvs' hall' (by omega)
+        hc64 hbad' hf' h
+  | .cons v vs, elem, o, path, r, fuel, i, idx, count, k, sp, R, ho, hml, hvs, hall, hcount, hc64, hbad,
+      hf, h => by
     obtain ⟨hv, hvs'⟩ : v.WF ∧ vs.WF := hvs
     obtain ⟨hmv, _⟩ : Matches elem v ∧ MatchesAll elem vs := hall
     have hf2 : 1 + (needVal v + needElems vs) ≤ fuel := by simp only [needElems] at hf; omega
@@ -75,16 +107,14 @@ theorem neg_elemsML : ∀ (vs : TVals) (elem : RShape) (o : Opts) (path r : List
     by_cases hsv : v.SmallArrays
     · obtain ⟨r', hr', h3⟩ := read_val v elem o.plusOne (pathIdx path i) r2 f .other _ ho.plusOne hv hmv
         (fun _ => hsv) (by omega) h2
-      cases vs with
-      | nil =>
-        exfalso
+      by_cases hw0 : vs.written = 0
+      · exfalso
         rcases hbad with hb | hb
-        · simp [TVals.length] at hb
-        · exact hb ⟨hsv, trivial⟩
-      | cons v2 vs2 =>
-        rw [writeElemsML] at h3
-        simp only [indexMarker, List.cons_append, List.append_assoc] at h3
-        have ha : afterElem r' = none := afterElem_bracket h3.skip_space
+        · simp only [TVals.written] at hb; omega
+        · exact hb ⟨hsv, smallArrays_unwritten vs hw0⟩
+      · obtain ⟨a, X, hsplit, hta⟩ := elemsML_next_bracket o vs (i + 1) (by omega)
+        rw [hsplit, List.append_assoc, List.cons_append] at h3
+        have ha : afterElem r' = none := afterElem_bracket (At.skip a hta h3)
         simp only [pathIdx] at hr'
         rw [readElems]
         simp only [hpeek, hmk, hlt, hr', ha, if_true, if_false]
@@ -134,6 +164,18 @@ theorem neg_fields : ∀ (fs : TFields) (rfs : RFields) (o : Opts) (wrote : Bool
     rw [writeFields] at h
     by_cases hc : o.comments = true
     · simp only [hc, if_true, List.cons_append, List.append_assoc, List.nil_append] at h
+      exact neg_fields fs rfs o wrote path r fuel _ sp R ho hml hfs' hm' hbad' hf'
+        h.skip_space.skip_comment.skip_space
+    · simp only [hc, if_false, List.nil_append] at h
+      exact neg_fields fs rfs o wrote path r fuel _ sp R ho hml hfs' hm' hbad' hf' h
+  | .skip name fs, rfs, o, wrote, path, r, fuel, k, sp, R, ho, hml, hfs, hm, hbad, hf, h => by
+    obtain ⟨_, hfs'⟩ : ValidWord name ∧ fs.WF := hfs
+    have hm' : MatchesFields rfs fs := hm
+    have hbad' : ¬ fs.SmallArrays := hbad
+    have hf' : needFields fs ≤ fuel := hf
+    rw [writeFields] at h
+    by_cases hc : o.comments = true
+    · simp only [hc, hml, if_true, List.cons_append, List.append_assoc, List.nil_append] at h
       exact neg_fields fs rfs o wrote path r fuel _ sp R ho hml hfs' hm' hbad' hf'
         h.skip_space.skip_comment.skip_space
     · simp only [hc, if_false, List.nil_append] at h
